@@ -193,6 +193,14 @@ func (in *Interp) strTermEq(a, b *Term) *Term {
 	if deepSame(a, b) {
 		return tTrue
 	}
+	// a choice nested inside a concatenation is lifted to the top: cat(x, ite(c,p,q), y) =
+	// ite(c, cat(x,p,y), cat(x,q,y)); otherwise the comparison would fall back to uninterpreted equality
+	if t, ok := liftNestedIte(a); ok {
+		return in.strTermEq(t, b)
+	}
+	if t, ok := liftNestedIte(b); ok {
+		return in.strTermEq(a, t)
+	}
 	la, aLit := litOf(a)
 	lb, bLit := litOf(b)
 	if aLit && bLit {
@@ -920,4 +928,70 @@ func (in *Interp) symFields(s *SymStr) Value {
 	}
 	flush()
 	return out
+}
+
+func segsToTerm(segs []seg) *Term {
+	var t *Term
+	for _, sg := range segs {
+		var p *Term
+		if sg.atom == nil {
+			p = litTerm(sg.lit)
+		} else {
+			p = sg.atom
+		}
+		if t == nil {
+			t = p
+		} else {
+			t = App("cat", SStr, t, p)
+		}
+	}
+	if t == nil {
+		return litTerm("")
+	}
+	return t
+}
+
+// liftNestedIte rewrites a concatenation containing a choice piece into a choice of concatenations.
+func liftNestedIte(t *Term) (*Term, bool) {
+	if !(t.op == OApp && t.name == "cat") {
+		return nil, false
+	}
+	var segs []seg
+	flattenStr(t, &segs)
+	for i, sg := range segs {
+		if sg.atom != nil && sg.atom.op == OIte {
+			mk := func(branch *Term) *Term {
+				var parts []seg
+				parts = append(parts, segs[:i]...)
+				flattenStr(branch, &parts)
+				for _, r := range segs[i+1:] {
+					if r.atom == nil {
+						flattenStr(litTerm(r.lit), &parts)
+					} else {
+						parts = append(parts, r)
+					}
+				}
+				return segsToTerm(parts)
+			}
+			return Ite(sg.atom.args[0], mk(sg.atom.args[1]), mk(sg.atom.args[2])), true
+		}
+	}
+	return nil, false
+}
+
+// canonStr normalises a string term: nested choices are lifted to the top and every choice-free
+// concatenation is rebuilt from its flattened segment list (adjacent literals merged, left-nested).
+func canonStr(t *Term) *Term {
+	if t.op == OIte {
+		return Ite(t.args[0], canonStr(t.args[1]), canonStr(t.args[2]))
+	}
+	if l, ok := liftNestedIte(t); ok {
+		return canonStr(l)
+	}
+	if t.op == OApp && t.name == "cat" {
+		var segs []seg
+		flattenStr(t, &segs)
+		return segsToTerm(segs)
+	}
+	return t
 }
